@@ -683,7 +683,7 @@ def _brief(o):
 
 def replay_case(ctx, r):
     """`./check Cxx --replay file`: re-executes the stored case on impl and model and prints both."""
-    case = r.get('replay', r)
+    case = C.unjsonable(r.get('replay', r))
     trace, residue, snap = execute(case['mode'], case['cfg'], case['ops'], case.get('coro', False))
     for i, (op, im, mo) in enumerate(trace):
         print('--- op %d: %s' % (i, _brief(op)))
@@ -694,3 +694,75 @@ def replay_case(ctx, r):
             print('   DIFF : %s' % d)
     print('residue impl=%r model=%r' % (residue, snap))
     return 0
+
+
+# ------------------------------------------------------------------ helpers for oracles
+
+def sent_packets(obs):
+    """[(tid, packet dict)] decoded with the independent codec"""
+    from . import pycodec
+    out = []
+    for tid, frames in obs['sends'].items():
+        try:
+            for p in pycodec.decode_stream(frames):
+                out.append((tid, p))
+        except Exception as ex:   # noqa
+            out.append((tid, {'type': 'undecodable', 'data': repr(frames), 'ns': None, 'id': None}))
+    return out
+
+
+class ClientFrames:
+    """Reassembles what each client sent (text + attachments) into packets, op by op."""
+
+    def __init__(self):
+        self.pend = {}
+
+    def feed(self, op):
+        """-> packet dict completed by this op, 'incomplete', or None (not a well-formed client packet)"""
+        from . import pycodec
+        if op['op'] not in ('frame', 'frameval'):
+            return None
+        t = op['t']
+        fr = self.pend.get(t, []) + [op['text'] if op['op'] == 'frame' else op['v']]
+        try:
+            pk = pycodec.decode_stream(fr)
+        except Exception:   # noqa
+            self.pend.pop(t, None)
+            return None
+        if pk and pk[-1]['type'] == 'incomplete':
+            self.pend[t] = fr
+            return 'incomplete'
+        self.pend.pop(t, None)
+        return pk[-1] if pk else None
+
+    def drop(self, t):
+        self.pend.pop(t, None)
+
+
+def served(cfg, ns):
+    return (cfg['served'] == '*' or ns in cfg['served'] or any(f[0] == ns for f in cfg['fn'])
+            or any(c[0] == ns for c in cfg['cls']))
+
+
+def has_handler(cfg, ns, ev):
+    """is some target responsible for reserved event `ev` on `ns` (connect/disconnect)"""
+    if [ns, ev] in cfg['fn'] or ['*', ev] in cfg['fn']:
+        return True
+    for cns, ms in cfg['cls']:
+        if cns == ns:
+            return ('on_' + ev) in ms
+    for cns, ms in cfg['cls']:
+        if cns == '*':
+            return ('on_' + ev) in ms
+    return False
+
+
+def error_args(args):
+    if len(args) == 0:
+        return {'message': 'Connection rejected by server'}
+    d = {'message': str(args[0])}
+    if len(args) == 2:
+        d['data'] = args[1]
+    elif len(args) > 2:
+        d['data'] = list(args[1:])
+    return d
